@@ -43,13 +43,16 @@ var (
 	WantBasePtr unsafe.Pointer
 	WantX       int64 = 41
 	WantS             = "str"
-	GenK        int64 // constant of the generic method about to be called (set by the call function)
+	WantF             = 2.5 // float parameter (parameter kind 6)
+	GenK        int64       // constant of the generic method about to be called (set by the call function)
 )
 
 // Stack-passed parameters (parameter kind 3).
 var (
 	WantArr  = [4]int64{7, 1, 2, 3}
 	WantArr2 = [4]int64{4, 5, 6, 8}
+	// WantArr16 is big enough to be copied with runtime.duffcopy (parameter kind 4)
+	WantArr16 = [16]int64{9, 8, 7, 6, 5, 4, 3, 2, 1}
 )
 
 // What the last callback saw.
